@@ -82,9 +82,9 @@ pub open spec fn hdr32(code: u8, e: IsArrayElement, body_len: int, count: int) -
         num <= buf@.len(),        // ASSUMED of the serializer call sites: every element of a list occupies at least one byte, so count <= byte length
     ensures
         r is Ok ==> final(writer).out@ == old(writer).out@ + (
-            if buf@.len() == 0 { seq![0x45u8] }                                                           // [C05.list.list0] the empty list is list0
-            else if buf@.len() <= 254 { hdr8(0xc0, *ext_is_array_elem, buf@.len() as int, num as int) }     // [C05.list.list8] list8: size = body + 1, count, both exact in 8 bits
-            else { hdr32(0xd0, *ext_is_array_elem, buf@.len() as int, num as int) }                         // [C05.list.list32] list32: big-endian size = body + 4, big-endian count
+            if buf@.len() == 0 { seq![0x45u8] }                                                           // [C05.list.list0] [C03.rt.encoder-premise] the empty list is list0
+            else if buf@.len() <= 254 { hdr8(0xc0, *ext_is_array_elem, buf@.len() as int, num as int) }     // [C05.list.list8] [C03.rt.encoder-premise] list8: size = body + 1, count, both exact in 8 bits
+            else { hdr32(0xd0, *ext_is_array_elem, buf@.len() as int, num as int) }                         // [C05.list.list32] [C03.rt.encoder-premise] list32: big-endian size = body + 4, big-endian count
         ) + buf@,
         r is Ok ==> buf@.len() <= 0xffff_fffb,                                                              // [C05.list.too-long] a body that does not fit the 32-bit size field is refused
         r is Ok && 0 < buf@.len() <= 254 ==> num <= 255 && buf@.len() + 1 <= 255,                           // [C03.list.no-truncation] the 8-bit form is chosen only when size and count fit in 8 bits
@@ -101,8 +101,8 @@ pub open spec fn hdr32(code: u8, e: IsArrayElement, body_len: int, count: int) -
         num <= buf@.len(),        // ASSUMED of the serializer call sites (2 entries per pair, each at least one byte)
     ensures
         r is Ok ==> final(writer).out@ == old(writer).out@ + (
-            if buf@.len() <= 254 { hdr8(0xc1, *ext_is_array_elem, buf@.len() as int, num as int) }          // [C05.map.map8]
-            else { hdr32(0xd1, *ext_is_array_elem, buf@.len() as int, num as int) }                         // [C05.map.map32]
+            if buf@.len() <= 254 { hdr8(0xc1, *ext_is_array_elem, buf@.len() as int, num as int) }          // [C05.map.map8] [C03.rt.encoder-premise]
+            else { hdr32(0xd1, *ext_is_array_elem, buf@.len() as int, num as int) }                         // [C05.map.map32] [C03.rt.encoder-premise]
         ) + buf@,
         r is Ok ==> buf@.len() <= 0xffff_fffb,
         r is Ok && buf@.len() <= 254 ==> num <= 255,                                                        // [C03.map.no-truncation]
@@ -119,8 +119,8 @@ pub open spec fn hdr32(code: u8, e: IsArrayElement, body_len: int, count: int) -
         num <= buf@.len(),        // ASSUMED of the serializer call sites (this implementation writes at least one byte per array element)
     ensures
         r is Ok ==> final(writer).out@ == old(writer).out@ + (
-            if buf@.len() <= 254 { hdr8(0xe0, *ext_is_array_elem, buf@.len() as int, num as int) }          // [C05.array.array8] array8: size = (constructor + elements) + 1, count
-            else { hdr32(0xf0, *ext_is_array_elem, buf@.len() as int, num as int) }                         // [C05.array.array32]
+            if buf@.len() <= 254 { hdr8(0xe0, *ext_is_array_elem, buf@.len() as int, num as int) }          // [C05.array.array8] [C03.rt.encoder-premise] array8: size = (constructor + elements) + 1, count
+            else { hdr32(0xf0, *ext_is_array_elem, buf@.len() as int, num as int) }                         // [C05.array.array32] [C03.rt.encoder-premise]
         ) + buf@,
         r is Ok ==> buf@.len() <= 0xffff_fffb,
         r is Ok && buf@.len() <= 254 ==> num <= 255,                                                        // [C03.array.no-truncation]
